@@ -23,8 +23,8 @@ for p in props:
         checks.append(c)
     else:
         na.append({"property_id": pid, "reason": "not claimed yet: model, theorems and correspondence harness for this property are not built in this revision (see DESIGN.md §4 for the plan)"})
-hooks_file = os.path.join(V, "manifest.d", "hooks.json")
-hooks = json.load(open(hooks_file)) if os.path.exists(hooks_file) else {"source_commits": []}
+import subprocess
+hooks = {"source_commits": subprocess.run(["git", "-C", "/repo", "log", "--format=%H", "--grep=^verif hook"], capture_output=True, text=True).stdout.split()}
 BASE = json.load(open("/root/.vp/BASELINE.json"))["cmd"] if os.path.exists("/root/.vp/BASELINE.json") else ""
 m = {
     "version": 1,
